@@ -34,6 +34,8 @@ import (
 	"errors"
 	"fmt"
 	"io"
+	"math/rand"
+	"net"
 	nethttp "net/http"
 	"sort"
 	"strings"
@@ -124,7 +126,9 @@ func (w *c23World) Query(ctx context.Context, qr *command.QueryRequest) ([]*comm
 func (w *c23World) Request(ctx context.Context, eqr *command.ExecuteQueryRequest) ([]*command.ExecuteQueryResponse, uint64, uint64, error) {
 	return nil, 0, 0, errors.New("unused")
 }
-func (w *c23World) Load(ctx context.Context, lr *command.LoadRequest) error { return errors.New("unused") }
+func (w *c23World) Load(ctx context.Context, lr *command.LoadRequest) error {
+	return errors.New("unused")
+}
 func (w *c23World) Backup(ctx context.Context, br *command.BackupRequest, dst io.Writer) error {
 	return errors.New("unused")
 }
@@ -144,13 +148,13 @@ func (w *c23World) LeaderAddr() (string, error) {
 func (w *c23World) Leader() (*store.Server, error) {
 	return &store.Server{ID: "n1", Addr: "127.0.0.1:4002"}, nil
 }
-func (w *c23World) Nodes() ([]*store.Server, error)               { return nil, nil }
-func (w *c23World) Ready() bool                                   { return true }
-func (w *c23World) Committed(t time.Duration) (uint64, error)     { return 0, nil }
-func (w *c23World) Stats() (map[string]any, error)                { return map[string]any{}, nil }
-func (w *c23World) Snapshot(n uint64) error                       { return nil }
-func (w *c23World) Reap() (int, int, error)                       { return 0, 0, nil }
-func (w *c23World) ReadFrom(r io.Reader) (int64, error)           { return 0, nil }
+func (w *c23World) Nodes() ([]*store.Server, error)           { return nil, nil }
+func (w *c23World) Ready() bool                               { return true }
+func (w *c23World) Committed(t time.Duration) (uint64, error) { return 0, nil }
+func (w *c23World) Stats() (map[string]any, error)            { return map[string]any{}, nil }
+func (w *c23World) Snapshot(n uint64) error                   { return nil }
+func (w *c23World) Reap() (int, int, error)                   { return 0, 0, nil }
+func (w *c23World) ReadFrom(r io.Reader) (int64, error)       { return 0, nil }
 
 // --- http.Cluster + proxy.Cluster (the fake leader) ---
 
@@ -203,10 +207,10 @@ func (l c23Leader) Stepdown(ctx context.Context, sr *command.StepdownRequest, no
 // ----------------------------------------------------------------- plan ----
 
 type c23Req struct {
-	Stmts     int
-	Wait      bool
-	TinyWait  bool // wait with a 30 ms timeout (may end in 408 while still accepted)
-	PauseMs   int  // client think time before the request
+	Stmts    int
+	Wait     bool
+	TinyWait bool // wait with a 30 ms timeout (may end in 408 while still accepted)
+	PauseMs  int  // client think time before the request
 }
 
 type c23Plan struct {
@@ -264,12 +268,12 @@ func (p c23Plan) String() string {
 }
 
 type c23Issued struct {
-	Client, Idx int
-	Req         c23Req
-	Tags        []string
-	Status      int
-	Seq         int64
-	Body        string
+	Client, Idx       int
+	Req               c23Req
+	Tags              []string
+	Status            int
+	Seq               int64
+	Body              string
 	MissingAtResponse []string // for wait requests answered 200
 }
 
@@ -320,7 +324,8 @@ func TestVerif_C23_Queue(t *testing.T) {
 		if p.Auth {
 			a := auth.NewCredentialsStore()
 			if err := a.Load(strings.NewReader(c23CredFile)); err != nil {
-				rt.Skipf("infrastructure: %v", err)
+				rec.Label("inconclusive:infrastructure")
+				return
 			}
 			cs = a
 		}
@@ -330,8 +335,9 @@ func TestVerif_C23_Queue(t *testing.T) {
 		svc.DefaultQueueBatchSz, svc.DefaultQueueCap = p.Batch, p.Cap
 		svc.DefaultQueueTimeout = time.Duration(p.TimeoutMs) * time.Millisecond
 		svc.DefaultQueueTx = p.Tx
-		if err := svc.Start(); err != nil {
-			rt.Skipf("infrastructure: %v", err)
+		if err := c23Retry(svc.Start); err != nil {
+			rec.Label("inconclusive:infrastructure")
+			return
 		}
 		defer func() {
 			// never close a service whose queue is blocked: Close waits for handlers
@@ -340,7 +346,7 @@ func TestVerif_C23_Queue(t *testing.T) {
 			svc.Close()
 		}()
 		base := "http://" + svc.Addr().String()
-		hc := &nethttp.Client{Transport: &nethttp.Transport{DisableKeepAlives: true}, Timeout: 120 * time.Second}
+		hc := &nethttp.Client{Transport: &nethttp.Transport{DisableKeepAlives: true, DialContext: func(ctx context.Context, network, addr string) (net.Conn, error) { return c23Dial(addr) }}, Timeout: 120 * time.Second}
 
 		// monitor: the leader is reachable and refuses the forwarded batch for lack
 		// of credentials; the queue retries with the same credentials for ever. Once
@@ -620,8 +626,9 @@ func TestVerif_C23_Burst(t *testing.T) {
 		svc.logger.SetOutput(io.Discard)
 		svc.DefaultQueueBatchSz, svc.DefaultQueueCap = batch, capacity
 		svc.DefaultQueueTimeout = time.Millisecond
-		if err := svc.Start(); err != nil {
-			rt.Skipf("infrastructure: %v", err)
+		if err := c23Retry(svc.Start); err != nil {
+			rec.Label("inconclusive:infrastructure")
+			return
 		}
 		defer func() { w.release(); svc.Close() }()
 
@@ -695,4 +702,53 @@ func TestVerif_C23_Burst(t *testing.T) {
 		}
 		rec.Label("drained-and-equal")
 	})
+}
+
+// ---- infrastructure helpers (not part of any oracle) ----
+
+// c23Dial connects to addr from a random loopback source address 127.x.y.z.
+// Sockets of a client that closes (or half-closes) first stay in TIME_WAIT for
+// 60 s; with 127.0.0.1 as the only source address, thousands of short
+// connections per second from many check processes would leave no free port
+// for bind(127.0.0.1:0), i.e. for every new listener on the machine. Spreading
+// the client side over 127/8 keeps those sockets away from 127.0.0.1. A few
+// retries with back-off absorb transient failures.
+func c23Dial(addr string) (net.Conn, error) {
+	var last error
+	for try := 0; try < 5; try++ {
+		d := net.Dialer{Timeout: 10 * time.Second, LocalAddr: &net.TCPAddr{IP: net.IPv4(127, byte(1+rand.Intn(250)), byte(rand.Intn(256)), byte(1+rand.Intn(250)))}}
+		c, err := d.Dial("tcp", addr)
+		if err == nil {
+			return c, nil
+		}
+		last = err
+		time.Sleep(time.Duration(25*(try+1)) * time.Millisecond)
+	}
+	return nil, last
+}
+
+// c23Listen listens on 127.0.0.1:0, retrying a few times.
+func c23Listen() (net.Listener, error) {
+	var last error
+	for try := 0; try < 5; try++ {
+		ln, err := net.Listen("tcp", "127.0.0.1:0")
+		if err == nil {
+			return ln, nil
+		}
+		last = err
+		time.Sleep(time.Duration(50*(try+1)) * time.Millisecond)
+	}
+	return nil, last
+}
+
+// c23Retry runs f up to five times with a short back-off.
+func c23Retry(f func() error) error {
+	var last error
+	for try := 0; try < 5; try++ {
+		if last = f(); last == nil {
+			return nil
+		}
+		time.Sleep(time.Duration(50*(try+1)) * time.Millisecond)
+	}
+	return last
 }
